@@ -139,17 +139,17 @@ def aggregateT (E : Engine α) (A : Mat α → Except Err (Vec α)) (keyOrder : 
 
 /-! ### Accumulate -/
 
-/-- `Accumulate._compute`, code as it is: checks and writes key by key -/
+/-- `Accumulate._compute`: every key is validated (`_check_expects_grad`) before the first `.grad`
+    is written; then `key.grad += value` where a `.grad` exists and `key.grad = value.clone()` where
+    it does not -/
 def accumulateT (E : Engine α) (g : GDict α) (h : Grads α) : Grads α × Option Err :=
-  g.foldl (fun (st : Grads α × Option Err) (kv : Key × Vec α) =>
-    match st.2 with
-    | some _ => st
-    | none =>
-      if !E.expectsGrad kv.1 then (st.1, some Err.value)
-      else match st.1 kv.1 with
-        | some old => (st.1.set kv.1 (some (vadd old kv.2)), none)     -- key.grad += value
-        | none => (st.1.set kv.1 (some kv.2), none))                    -- key.grad = value.clone()
-    (h, none)
+  if g.all (fun kv => E.expectsGrad kv.1) then
+    (g.foldl (fun (h : Grads α) (kv : Key × Vec α) =>
+        match h kv.1 with
+        | some old => h.set kv.1 (some (vadd old kv.2))     -- key.grad += value
+        | none => h.set kv.1 (some kv.2))                    -- key.grad = value.clone()
+      h, none)
+  else (h, some Err.value)
 
 /-! ### backward -/
 
@@ -223,6 +223,8 @@ def mtlBackward [One α] (E : Engine α) (ndim : Key → Nat) (losses features :
   else if losses.any (fun l => ndim l > 0) then fail .value                  -- _check_losses_are_scalar
   else if losses.isEmpty then fail .value
   else if losses.length ≠ tasksParams.length then fail .value
+  -- every parameter must expect a gradient (checked before anything is accumulated)
+  else if !(shared ++ tasksParams.flatten).all E.expectsGrad then fail .value
   -- constructors: ordered_set(...) in Grad / Jac / Aggregate reject duplicates
   else if tasksParams.any (fun tp => hasDup (tp ++ features)) then fail .value
   else if hasDup features || hasDup shared then fail .value
